@@ -1586,7 +1586,20 @@ def check_C18(run):
         exit_ok = {t for ti, k, t, x in o.events if k == "exit" and x["status"] == 0}
         ta, tb = st.after["tree"], st.before["tree"]
         failed_printed = {t for ti, kind, t, _, _ in o.printed if kind == "failed"}
-        for c in sorted(started):
+        # a combine task that this run needed (it is never a cached result itself) and that was not executed
+        # although the run succeeded: its entries are judged all the same - "re-running updates the entries"
+        consider = set(started)
+        if inv.code == 0 and inv.internal is None and not st.op.get("flags", {}).get("check"):
+            try:
+                needed_, _c, err_ = o.model_plan()
+            except Exception:
+                needed_, err_ = set(), True
+            if not err_:
+                for c in needed_:
+                    if c in tasks and tasks[c]["kind"] == "combine" and c not in started:
+                        consider.add(c)
+                        reach["needed_combine_not_executed"] = reach.get("needed_combine_not_executed", 0) + 1
+        for c in sorted(consider):
             if c not in tasks or tasks[c]["kind"] != "combine":
                 continue
             c_rel = M.out_dir_rel(c)
